@@ -4,22 +4,6 @@ import ThriftVerif.Lib.ResolveLemmas.Deref
 -/
 namespace Sem
 
-theorem sane_of {p : Program} (hs : p.saneNames = true) {j : Nat} {f : File} (hf : p[j]? = some f)
-    {n : Bytes} {c : Cat} (hd : Declares f n c) :
-    specBase n = none ∧ isContainerName n = false ∧ n ≠ [] := by
-  have hfm : f ∈ p := List.mem_of_getElem? hf
-  have h1 : f.saneNames = true := by
-    unfold Program.saneNames at hs
-    exact List.all_eq_true.mp hs f hfm
-  unfold File.saneNames at h1
-  have hn : n ∈ f.names := by
-    unfold File.names
-    exact List.mem_map.mpr ⟨(n, c), (declared_iff f n c).mpr hd, rfl⟩
-  have := List.all_eq_true.mp h1 n hn
-  simp only [Bool.and_eq_true, Option.isNone_iff_eq_none, Bool.not_eq_eq_eq_not, Bool.not_true,
-    List.isEmpty_eq_false_iff] at this
-  exact ⟨this.1.2, this.2, this.1.1⟩
-
 /-- `vals` are the value names of enum `e`. -/
 def EnumVals (p : Program) (e : Nat × Bytes) (vals : List Bytes) : Prop :=
   ∃ g en, p[e.1]? = some g ∧ en ∈ g.enums ∧ en.name = e.2 ∧ vals = en.values.map (·.name)
@@ -82,8 +66,8 @@ theorem declares_enum {f : File} {n : Bytes} (h : Declares f n .enum) : ∃ e, e
 theorem kw_container : isContainerName kwList = true ∧ isContainerName kwSet = true ∧ isContainerName kwMap = true := by
   decide
 
-/-- getEnum finds only what `EnumDen` allows (no definition named like a type keyword). -/
-theorem getEnum_sound {p : Program} (hs : p.saneNames = true) {views : Nat → Option FileView}
+/-- getEnum finds only what `EnumDen` allows. -/
+theorem getEnum_sound {p : Program} {views : Nat → Option FileView}
     (hv : AllViews p views) : ∀ (fuel : Nat) (seen : List (Nat × Bytes)) (j : Nat) (name : Bytes)
       (vals : List Bytes) (idx : Int),
     getEnum views fuel seen j name = .ok (some vals, idx) →
@@ -140,29 +124,38 @@ theorem getEnum_sound {p : Program} (hs : p.saneNames = true) {views : Nat → O
                 | none =>
                   rw [hr] at h
                   simp only at h
-                  obtain ⟨e, hed, hev⟩ := getEnum_sound hs hv fuel _ j root.rootName vals idx h
-                  obtain ⟨g', c', hg', hd'⟩ := enumDen_declares hed
-                  rw [hg] at hg'; simp only [Option.some.injEq] at hg'; subst hg'
-                  obtain ⟨s2, s3, _⟩ := sane_of hs hg hd'
-                  rw [hrn] at s2 s3 hed
-                  cases hty : td.type with
-                  | name n =>
-                    rw [hty] at s2 hed hden
-                    simp only [TypeExpr.rootName] at s2 hed
-                    have hsp : splitLastDot n = none := by
-                      rcases den_ty_name_inv hden with ⟨c2, q1, _⟩ | ⟨_, q2, _⟩ | ⟨f2, a, b, k, j2, c2, _, q2, q3, q4, _⟩
-                      · rw [s2] at q1; cases q1
-                      · exact q2
-                      · exfalso
-                        have := (href k b).mpr (by rw [hty]; exact ⟨n, f2, a, j2, c2, rfl, s2, q3, q2, q4⟩)
-                        rw [hr] at this; cases this
-                    refine ⟨e, ?_, hev⟩
-                    have := EnumDen.tdLoc hg htdm hty s2 hsp hed
-                    rw [hal] at this
-                    exact this
-                  | list x => rw [hty] at s3; simp only [TypeExpr.rootName, kw_container.1] at s3; cases s3
-                  | set x => rw [hty] at s3; simp only [TypeExpr.rootName, kw_container.2.1] at s3; cases s3
-                  | map x y => rw [hty] at s3; simp only [TypeExpr.rootName, kw_container.2.2] at s3; cases s3
+                  by_cases hcm : inCategoryMap root.rootName = true
+                  · rw [if_pos hcm] at h
+                    simp only [Except.ok.injEq, Prod.mk.injEq, reduceCtorEq, false_and] at h
+                  · rw [if_neg hcm] at h
+                    obtain ⟨e, hed, hev⟩ := getEnum_sound hv fuel _ j root.rootName vals idx h
+                    have hnk : root.rootName ∉ Generated.C05.baseCase ∧ ¬ isContainerName root.rootName = true := by
+                      have := fun h' => hcm ((inCategoryMap_iff root.rootName).mpr h')
+                      exact ⟨fun h' => this (Or.inl h'), fun h' => this (Or.inr h')⟩
+                    rw [hrn] at hnk hed
+                    cases hty : td.type with
+                    | name n =>
+                      rw [hty] at hnk hed hden
+                      simp only [TypeExpr.rootName] at hnk hed
+                      have s2 : specBase n = none := by
+                        cases hb : specBase n with
+                        | none => rfl
+                        | some c2 => exact absurd (specBase_some_mem hb) hnk.1
+                      have s3 : isContainerName n = false := by simpa using hnk.2
+                      have hsp : splitLastDot n = none := by
+                        rcases den_ty_name_inv hden with ⟨c2, q1, _⟩ | ⟨_, q2, _⟩ | ⟨f2, a, b, k, j2, c2, _, q2, q3, q4, _⟩
+                        · rw [s2] at q1; cases q1
+                        · exact q2
+                        · exfalso
+                          have := (href k b).mpr (by rw [hty]; exact ⟨n, f2, a, j2, c2, rfl, s2, q3, q2, q4⟩)
+                          rw [hr] at this; cases this
+                      refine ⟨e, ?_, hev⟩
+                      have := EnumDen.tdLoc hg htdm hty s2 s3 hsp hed
+                      rw [hal] at this
+                      exact this
+                    | list x => rw [hty] at hnk; simp only [TypeExpr.rootName, kw_container.1] at hnk; exact absurd trivial hnk.2
+                    | set x => rw [hty] at hnk; simp only [TypeExpr.rootName, kw_container.2.1] at hnk; exact absurd trivial hnk.2
+                    | map x y => rw [hty] at hnk; simp only [TypeExpr.rootName, kw_container.2.2] at hnk; exact absurd trivial hnk.2
                 | some r =>
                   rw [hr] at h
                   simp only at h
@@ -183,7 +176,7 @@ theorem getEnum_sound {p : Program} (hs : p.saneNames = true) {views : Nat → O
                     | some vs =>
                       simp only [Except.ok.injEq, Prod.mk.injEq, Option.some.injEq] at h
                       obtain ⟨rfl, rfl⟩ := h
-                      obtain ⟨e, hed, hev⟩ := getEnum_sound hs hv fuel _ j' r.name vs i2 hsub
+                      obtain ⟨e, hed, hev⟩ := getEnum_sound hv fuel _ j' r.name vs i2 hsub
                       refine ⟨e, ?_, hev⟩
                       have := EnumDen.tdQual hg htdm e1 e2 e4 hfirst hed
                       rw [hal] at this
@@ -202,7 +195,7 @@ theorem not_qual_of_nodot {p : Program} {j : Nat} {n : Bytes} (h : splitLastDot 
 inductive EnumDenH (p : Program) : Nat → Bytes → Nat × Bytes → Int → Nat → Prop
   | enum {j f b} : p[j]? = some f → Declares f b .enum → EnumDenH p j b (j, b) (-1) 0
   | tdLoc {j f td n e idx h} : p[j]? = some f → td ∈ f.typedefs → td.type = .name n →
-      specBase n = none → splitLastDot n = none → EnumDenH p j n e idx h →
+      specBase n = none → isContainerName n = false → splitLastDot n = none → EnumDenH p j n e idx h →
       EnumDenH p j td.alias e idx (h + 1)
   | tdQual {j f td n a b} {k : Nat} {j' c e idx h} : p[j]? = some f → td ∈ f.typedefs → td.type = .name n →
       specBase n = none → splitLastDot n = some (a, b) →
@@ -213,7 +206,7 @@ theorem enumDen_height {p : Program} {j : Nat} {b : Bytes} {e : Nat × Bytes} {i
     (h : EnumDen p j b e idx) : ∃ n, EnumDenH p j b e idx n := by
   induction h with
   | enum h1 h2 => exact ⟨0, .enum h1 h2⟩
-  | tdLoc h1 h2 h3 h4 h5 _ ih => obtain ⟨n, hn⟩ := ih; exact ⟨n + 1, .tdLoc h1 h2 h3 h4 h5 hn⟩
+  | tdLoc h1 h2 h3 h4 hc h5 _ ih => obtain ⟨n, hn⟩ := ih; exact ⟨n + 1, .tdLoc h1 h2 h3 h4 hc h5 hn⟩
   | tdQual h1 h2 h3 h4 h5 h6 _ ih => obtain ⟨n, hn⟩ := ih; exact ⟨n + 1, .tdQual h1 h2 h3 h4 h5 h6 hn⟩
 
 theorem enumDenH_inv {p : Program} {j : Nat} {b : Bytes} {e : Nat × Bytes} {idx : Int} {h : Nat}
@@ -226,7 +219,7 @@ theorem enumDenH_inv {p : Program} {j : Nat} {b : Bytes} {e : Nat × Bytes} {idx
         EnumDenH p j' b' e idx0 h0 ∧ h = h0 + 1) := by
   cases hd with
   | enum h1 h2 => exact Or.inl ⟨_, h1, h2, rfl⟩
-  | tdLoc h1 h2 h3 _ h5 h6 => exact Or.inr (Or.inl ⟨_, _, _, _, h1, h2, rfl, h3, h5, h6, rfl⟩)
+  | tdLoc h1 h2 h3 _ _ h5 h6 => exact Or.inr (Or.inl ⟨_, _, _, _, h1, h2, rfl, h3, h5, h6, rfl⟩)
   | tdQual h1 h2 h3 _ h5 h6 h7 => exact Or.inr (Or.inr ⟨_, _, _, _, _, _, _, _, _, _, h1, h2, rfl, h3, h5, h6, h7, rfl⟩)
 
 /-- the number of typedefs between a name and its enum is determined by the name -/
@@ -247,7 +240,7 @@ theorem enumDenH_fun {p : Program} {views : Nat → Option FileView} (hv : AllVi
     · rw [h1] at q1; simp only [Option.some.injEq] at q1; subst q1
       have := declares_unique hnd h2 (by rw [← q3]; exact Declares.typedef q2)
       cases this
-  | @tdLoc j f td n e idx h h1 h2 h3 _ h5 _ ih =>
+  | @tdLoc j f td n e idx h h1 h2 h3 _ _ h5 _ ih =>
     intro ⟨v, hvj⟩ e' idx' h' hd'
     obtain ⟨g, hg, hnd, _⟩ := (hv j v hvj).ex
     rw [h1] at hg; simp only [Option.some.injEq] at hg; subst hg
@@ -336,9 +329,9 @@ theorem getEnum_complete_h {p : Program} {views : Nat → Option FileView} (hv :
             simp only [Option.map_some, Option.some.injEq] at he
             obtain ⟨hm, hnm⟩ := findEnum_some hfe
             exact ⟨vs, hr.symm, f, en, h1, hm, hnm, he.symm⟩
-  | @tdLoc j f td n e idx h h1 h2 h3 h4 h5 hsub ih =>
+  | @tdLoc j f td n e idx h h1 h2 h3 h4 hcn h5 hsub ih =>
     intro hview fuel seen r hseen hr
-    have hself := EnumDenH.tdLoc h1 h2 h3 h4 h5 hsub
+    have hself := EnumDenH.tdLoc h1 h2 h3 h4 hcn h5 hsub
     cases fuel with
     | zero => simp [getEnum] at hr
     | succ fuel =>
@@ -375,6 +368,13 @@ theorem getEnum_complete_h {p : Program} {views : Nat → Option FileView} (hv :
           rw [hrefn] at hr
           simp only at hr
           rw [hrn, h3] at hr
+          have hncm : ¬ inCategoryMap (TypeExpr.name n).rootName = true := by
+            simp only [TypeExpr.rootName]
+            rw [inCategoryMap_iff]
+            simp only [not_or]
+            exact ⟨specBase_none_not_mem h4, by rw [hcn]; simp⟩
+          rw [if_neg hncm] at hr
+          simp only [TypeExpr.rootName] at hr
           refine ih hview fuel _ r ?_ hr
           intro k hk e' idx' h' hd'
           rcases List.mem_cons.mp hk with rfl | hk
